@@ -104,12 +104,15 @@ type manualCtx struct {
 	stop     func() bool
 }
 
-// callerDeadline: every real caller of the worker token has a deadline of its own (server.handleFunc: WriteTimeout,
+// caller deadline: every real caller of the worker token has a deadline of its own (server.handleFunc: WriteTimeout,
 // pingOne: TokenCheckTimeout), far beyond the token's per-attempt timeout; the harness's caller context has one too and
 // ends with DeadlineExceeded when it passes (a scripted cancellation comes first when there is one).
-const callerDeadline = 20 * time.Second
+const callerMargin = 20 * time.Second
 
-func newManualCtx(err error) *manualCtx {
+// the caller's deadline: everything the operation may legitimately take (every scheduled back-off, every attempt up to the
+// token's timeout) plus a margin
+func newManualCtx(err error, legit time.Duration) *manualCtx {
+	callerDeadline := legit + callerMargin
 	c := &manualCtx{done: make(chan struct{}), err: err, deadline: time.Now().Add(callerDeadline)}
 	t := time.AfterFunc(callerDeadline, func() {
 		c.once.Do(func() { c.err = context.DeadlineExceeded; c.fin.Store(true); close(c.done) })
@@ -391,7 +394,16 @@ func runRetry(f []string) (res string) {
 			cerr = context.DeadlineExceeded
 		}
 	}
-	sc.ctx = newManualCtx(cerr)
+	legit := time.Duration(0)
+	eff := retries
+	if eff <= 0 {
+		eff = 5
+	}
+	for _, d := range delaySeq(eff) {
+		legit += d
+	}
+	legit += time.Duration(eff) * time.Duration(timeout) * time.Second
+	sc.ctx = newManualCtx(cerr, legit)
 	scripts.Store(id, sc)
 	defer scripts.Delete(id)
 	var key token.Key
